@@ -334,13 +334,17 @@ class BaseTemplate:
         return cooked
 
     def digest(self, body: str, names: Collection[str]) -> str:
+        # The fields of fixed alphabet come first, each terminated; the
+        # body (any text) comes last, so that no two different inputs
+        # give the same byte sequence.
         class_name = type(self).__name__.encode('utf-8')
+        filename = str(self.filename)
         sha = get_pkg_digest()
-        sha.update(body.encode('utf-8', 'ignore'))
-        sha.update(class_name)
+        sha.update(class_name + b'\n')
+        sha.update(filename.encode('utf-8', 'surrogatepass') + b'\n')
+        sha.update(body.encode('utf-8', 'surrogatepass'))
         digest = sha.hexdigest()
 
-        filename = str(self.filename)
         if filename and filename != BaseTemplate.filename:
             digest = os.path.splitext(filename)[0] + '-' + digest
 
